@@ -198,7 +198,7 @@ CLAIMED.update({
               "fuel bound of the loop model is never exhausted), that whatever it returns is on a sample position inside the "
               "recording and is a genuine crossing (the sample is zero or differs in sign from a neighbour), and that it otherwise "
               "raises ArgumentError exactly when the step holds fewer than two samples and FindZeroCrossingError in every other "
-              "case.  Results on in-memory and file-backed recordings are compared with the model on the exact time grid and judged "
+              "case, and never when the target is sample k >= 1 and sample k-1 is zero (so never on silence).  Results on in-memory and file-backed recordings are compared with the model on the exact time grid and judged "
               "by the statement of the property inside Coq on all grids, each call under an alarm.  tgBoundariesToZeroCrossings "
               "(model tg_zc: tiers, names, order kept, every time mapped through the search, labels kept) and audioSplice (model "
               "splice with _shiftTimes: if the textgrid ends where the recording ends, so does the returned pair, with or without "
